@@ -102,7 +102,8 @@ structure Body where
 structure Err where
   code : String
   detailsEmpty : Bool
-  detRoom : Option String   -- Details decodes as RoomErrorDetails with a room: its roomid
+  detOk : Bool              -- Details decodes as RoomErrorDetails (json.Unmarshal returns no error)
+  detRoom : Option String   -- … and the decoded value has a room: its roomid
   origDroom : String        -- rendering of the untouched Details
   deriving DecidableEq, Repr, Inhabited
 
@@ -168,6 +169,12 @@ structure Facts where
   sendErrorReconnects : Bool
   sendWithoutConnDefersNonRoom : Bool
   closeRechecksConn : Bool
+  /-- unchecked type assertions on map entries / interface values in the handlers and the helpers they call -/
+  handlerUncheckedAsserts : Nat
+  /-- loops of the handlers (and of what they call) whose termination depends on live state -/
+  unboundedLoops : List String
+  /-- `processHello` sends the pending messages by ranging over a snapshot taken (and reset) under the queue's mutex -/
+  flushOverSnapshot : Bool
   deriving Repr
 
 def generatedFacts : Facts where
@@ -191,6 +198,9 @@ def generatedFacts : Facts where
   sendErrorReconnects := Generated.ShapesFederation.sendErrorReconnects
   sendWithoutConnDefersNonRoom := Generated.ShapesFederation.sendWithoutConnDefersNonRoom
   closeRechecksConn := Generated.ShapesFederation.closeRechecksConn
+  handlerUncheckedAsserts := Generated.ShapesFederation.handlerUncheckedAsserts
+  unboundedLoops := Generated.ShapesFederation.unboundedLoops
+  flushOverSnapshot := Generated.ShapesFederation.flushOverSnapshot
 
 /-! ## Shape validation, defined over the regenerated tables -/
 
@@ -276,6 +286,7 @@ structure Fed where
   hide : Bool := false             -- PERMISSION_HIDE_DISPLAYNAMES
   sessionClosed : Bool := false
   started : Bool := false
+  peerDown : Bool := false         -- the remote server refuses new connections (every reconnect attempt fails)
   deriving Repr, Inhabited
 
 /-- Symbol of the local session's public id (the harness substitutes the real one). -/
@@ -299,6 +310,7 @@ inductive Eff where
 inductive Fault where
   | crash (site : String)
   | deadlock (lock : String)
+  | spin (site : String)     -- a loop of the read-loop goroutine that never ends (holding whatever it holds)
   deriving DecidableEq, Repr, Inhabited
 
 structure Ctx where
@@ -361,11 +373,22 @@ def scheduleReconnectLocked (c : Ctx) : Ctx :=
   let c := closeConnNoBye c
   (c.upd fun s => { s with timer := true })
 
+def lostHello : String := "hello(@HID-lost@"
+
+/-- A successful write.  A hello whose own write failed was queued like any other message (`deferMessage` does not
+look at the type); when the queue is flushed after a resume it reaches the remote server after all — as the next
+hello the remote sees, although the client no longer waits for its answer. -/
+def deliver (m : String) (c : Ctx) : Ctx :=
+  if hasPrefix lostHello m then
+    let n := c.st.helloCount + 1
+    emit (.toPeer ("hello(@HID" ++ toString n ++ "@" ++ dropS lostHello.length m)) (c.upd fun s => { s with helloCount := n })
+  else emit (.toPeer m) c
+
 /-- `sendMessageLocked` (the caller holds `mu`, which is part of `held`). -/
 def sendMessageLocked (F : Facts) (held : List String) (typ m : String) (c : Ctx) : Ctx :=
   if !c.st.connOpen then
     if typ ≠ "room" || !F.sendWithoutConnDefersNonRoom then deferMessage F held m c else c
-  else if !c.st.writeBroken then emit (.toPeer m) c
+  else if !c.st.writeBroken then deliver m c
   else
     let c := if F.sendErrorDefers then deferMessage F held m c else c
     if F.sendErrorReconnects then scheduleReconnectLocked c else c
@@ -431,12 +454,20 @@ def processWelcome (F : Facts) (m : ServerMessage) (c : Ctx) : Ctx :=
     if !hasFeature w F.federationFeature then closeWithError F [] "federation_unsupported" "~" c
     else sendHelloLocked F [F.helloLock] (lock [] F.helloLock c)
 
-/-- Sending the queued messages after a successful resume (`helloMu` released, `mu` taken). -/
+/-- Sending the queued messages after a successful resume (`helloMu` released, `mu` taken).
+
+`sendMessageLocked` puts a message back into the queue when the write fails or the connection is gone.  The
+code ranges over a snapshot of the queue (taken and reset under `pendingMu`), so the loop ends after one pass
+whatever happens to the connection.  A loop that takes the messages from the live queue instead never sees
+the queue empty once one write has failed: it spins, holding `mu` (`Facts.flushOverSnapshot = false`). -/
 def flushPending (F : Facts) (c : Ctx) : Ctx :=
   let msgs := c.st.pending
-  let c := (c.upd fun s => { s with pending := [] })
   if msgs.isEmpty then c
-  else msgs.foldl (fun c m => sendMessageLocked F [F.sendLock] "message" m c) (lock [] F.sendLock c)
+  else if !F.flushOverSnapshot && (!c.st.connOpen || c.st.writeBroken) && c.st.resumeId ≠ "" then
+    fail (.spin "processHello:pending-messages") (lock [] F.sendLock c)
+  else
+    let c := (c.upd fun s => { s with pending := [] })
+    msgs.foldl (fun c m => sendMessageLocked F [F.sendLock] "message" m c) (lock [] F.sendLock c)
 
 def processHello (F : Facts) (m : ServerMessage) (c : Ctx) : Ctx :=
   let c := lock [] F.helloLock c
@@ -602,6 +633,10 @@ def forwardEvent (F : Facts) (st : Fed) (id : String) (e : Event) (rsid : String
     else ev []
   else ev []
 
+/-- The dereference `details.Room.…` of the value `processMessage` itself decodes from the raw `error.details`
+(no validation table covers it): reported by the extractor under this name when the nil test in front of it is missing. -/
+def detailsRoomDeref : String × String × String × String := ("error", "", "", "@RoomErrorDetails.Room")
+
 def forward (F : Facts) (st : Fed) (m : ServerMessage) : Fwd :=
   let rsid := match st.hello with
     | some h => h.sessionId
@@ -624,9 +659,12 @@ def forward (F : Facts) (st : Fed) (m : ServerMessage) : Fwd :=
       if st.changeRoomId then .crashAt "processMessage:msg.Error"
       else { out := some (canon "error" m.id ["code=~", "droom=~"]) }
     | some e =>
+      let looks := st.changeRoomId && e.code = "already_joined" && !e.detailsEmpty && e.detOk
+      if looks && e.detRoom.isNone && F.derefs.contains detailsRoomDeref then
+        .crashAt "processMessage:details.Room"
+      else
       let droom :=
-        if st.changeRoomId && e.code = "already_joined" && !e.detailsEmpty && e.detRoom = some st.remoteRoomId
-        then enc st.roomId else e.origDroom
+        if looks && e.detRoom = some st.remoteRoomId then enc st.roomId else e.origDroom
       { out := some (canon "error" m.id ["code=" ++ enc e.code, "droom=" ++ droom]) }
   else if m.type = "room" then
     -- the answer to the join request: ids are taken from the request again
@@ -696,7 +734,9 @@ unless the client was closed. -/
 def afterRead (F : Facts) (c : Ctx) : Ctx :=
   let c := if !c.st.connOpen && !c.st.closed then scheduleReconnectLocked (lock [] F.sendLock c) else c
   if c.st.timer && !c.st.closed then
-    emit .reconnected (c.upd fun s => { s with timer := false, connOpen := true, writeBroken := false })
+    -- while the remote server refuses connections every attempt fails and arms the timer again
+    if c.st.peerDown then c
+    else emit .reconnected (c.upd fun s => { s with timer := false, connOpen := true, writeBroken := false })
   else (c.upd fun s => { s with timer := false })
 
 def dispatch (F : Facts) (m : ServerMessage) (c : Ctx) : Ctx :=
@@ -718,6 +758,8 @@ inductive Op where
   | bin
   | big (n : Nat)
   | drop
+  | hold                   -- the connection is dropped and the remote server refuses new ones …
+  | up                     -- … until it accepts them again
   | localLeave
   | localMsg
   | probe
@@ -759,6 +801,8 @@ def step (F : Facts) (st : Fed) (op : Op) : Ctx :=
     else if n > F.maxMessageSize then connectionLost F c
     else afterRead F (onFrame F (.msg { (default : ServerMessage) with type := "noop" }) c)
   | .drop => if !st.connOpen then c else connectionLost F { st := { st with connOpen := false } }
+  | .hold => if !st.connOpen then c else connectionLost F { st := { st with connOpen := false, peerDown := true } }
+  | .up => if !st.peerDown then c else afterRead F { st := { st with peerDown := false } }
   | .localLeave =>
     if st.attached && !st.sessionClosed then
       -- LeaveRoomWithMessage: the client is detached and asked to leave (another goroutine: nothing held)
